@@ -191,17 +191,18 @@ void mzd_row_add(mzd_t *M, rci_t sourcerow, rci_t destrow) {
 
 void mzd_row_clear_offset(mzd_t *M, rci_t row, rci_t coloffset) {
   wi_t const startblock = coloffset / m4ri_radix;
-  word temp;
-  word *truerow = mzd_row(M, row);
-  /* make sure to start clearing at coloffset */
-  if (coloffset % m4ri_radix) {
-    temp = truerow[startblock];
-    temp &= __M4RI_RIGHT_BITMASK(m4ri_radix - coloffset);
+  word *truerow         = mzd_row(M, row);
+  if (startblock >= M->width) return;
+  /* columns >= coloffset in the first word, valid columns only in the last word */
+  word const mask_begin = __M4RI_RIGHT_BITMASK(m4ri_radix - coloffset % m4ri_radix);
+  word const mask_end   = M->high_bitmask;
+  if (startblock == M->width - 1) {
+    truerow[startblock] &= ~(mask_begin & mask_end);
   } else {
-    temp = 0;
+    truerow[startblock] &= ~mask_begin;
+    for (wi_t i = startblock + 1; i < M->width - 1; ++i) { truerow[i] = 0; }
+    truerow[M->width - 1] &= ~mask_end;
   }
-  truerow[startblock] = temp;
-  for (wi_t i = startblock + 1; i < M->width; ++i) { truerow[i] = 0; }
 
   __M4RI_DD_ROW(M, row);
 }
